@@ -784,10 +784,10 @@ impl<K: KeyT> SetRunner<K> {
                 if !self.dead.insert(id) {
                     return Some(format!("object k{} handed back after it was dropped", id));
                 }
+            } else if self.dead.contains(&id) {
+                return Some(format!("object k{} handed to the caller although the set dropped it (or handed it out before)", id));
             } else if id >= 1_000_000 {
-                if !self.dead.insert(id) {
-                    return Some(format!("clone k{} handed back twice", id));
-                }
+                self.dead.insert(id);
             }
         }
         for id in &held {
